@@ -300,6 +300,9 @@ def judge(sc, rec, ctx, snapshots, online, M):
 
 
 def evaluate(prop, sc, want_trace=False):
+    if sc.get('variant') == 'async':
+        from . import fam_topology_async
+        return fam_topology_async.evaluate(prop, sc, want_trace)
     rec, ctx, snapshots, online, M = run_topology(sc)
     out = Outcome()
     out.events = len(rec.events)
@@ -335,6 +338,10 @@ EDITABLE = ['map', 'filter', 'accumulate', 'union', 'zip', 'combine_latest', 'sl
 
 
 def generate(prop, rng, seed, index, tier):
+    if rng.random() < 0.25:
+        # edits of pipelines holding a node with asynchronous internal state (virtual-time loop)
+        from . import fam_topology_async
+        return fam_topology_async.generate(rng, seed, index, tier)
     big = tier == 'thorough'
     graph = []
 
@@ -464,6 +471,11 @@ def generate(prop, rng, seed, index, tier):
 
 
 def shrink_candidates(sc):
+    if sc.get('variant') == 'async':
+        from . import fam_topology_async
+        yield from fam_topology_async.shrink_candidates(sc)
+        return
+
     def clone():
         return copy.deepcopy(sc)
     ops = sc['ops']
